@@ -3,7 +3,7 @@
   record, opt-out of a whole rollapp, insertion of a new sequencer / rollapp, notice-queue removal).
 -/
 import DymVerif.Lemmas.CoreRolesChoose
-namespace DymVerif.Core
+namespace DymVerif.Core.Roles
 
 theorem BondedOf.of_seqs {s s' : St} {id : Nat} {a : Addr} (h : BondedOf s id a) (e : s'.seqs = s.seqs) :
     BondedOf s' id a := by
@@ -312,4 +312,4 @@ theorem RolesCore.of_insertSeq {s : St} {q : Seq} (h : RolesCore s) (hf : getSeq
   · exact h.fut
   · exact h.np
 
-end DymVerif.Core
+end DymVerif.Core.Roles
